@@ -262,6 +262,10 @@ struct VAR {
             // std::forward<T>(t) to the value contained in *this", i.e. a self copy-assignment of the alternative:
             // a valid call that must leave the value unchanged (const lvalue only; an rvalue may be assumed unique)
             if constexpr (CP) {
+                if (from != 1 && vf::ctx().excluded("variant.assign_own_alternative")) { // known-finding exclusion (tracked alternatives only)
+                    vf::excluded_known("variant.assign_own_alternative");
+                    break;
+                }
                 auto before = snap(x);
                 dispatch(from, [&](auto i) {
                     auto const& own = etl::unchecked_get<decltype(i)::value>(x);
